@@ -21,7 +21,8 @@ from concurrent.futures import ThreadPoolExecutor
 
 from harness import tlc
 
-BAD = -999999999          # projection of a non-integral / NaN / missing number: no total can equal it
+BAD = -999999999          # projection of a non-integral / infinite / missing number: no total can equal it
+NA = -999999998           # projection of "not a number": allowed only for a group without rows on that date
 KINDS = ['both', 'noisy', 'outlier', 'clean', 'few', 'both', 'noisy', 'outlier', 'clean', 'both', 'few', 'noisy']
 
 DESIGN_CFG = """SPECIFICATION Spec
@@ -99,12 +100,22 @@ def gen_instance(seed, idx):
       planted_out.append(d)
       vals[cand[0], d] += int(rs.randint(150, 320))  # a huge spike on one date in one group
   ids_int = sorted(int(x) for x in rs.choice(np.arange(1, 200), ngeo, replace=False))
+  # unbalanced panels: a third of the instances lack a few (geo, date) rows; in half of those one whole group has no
+  # row on one date (drawn last, so that the instances are otherwise those of the balanced generator)
+  missing = []
+  if idx % 3 == 1:
+    for _ in range(int(rs.randint(1, 5))):
+      missing.append([int(rs.randint(0, ngeo)), int(rs.randint(0, nd))])
+    if idx % 2 == 1:
+      tag = 't' if rs.rand() < 0.6 else 'c'
+      d = int(rs.randint(0, nd))
+      missing.extend([g, d] for g in range(ngeo) if groups[g] == tag)
   fmt = {'geo': ['int', 'int', 'str'][idx % 3], 'date': ['ts', 'ts', 'str', 'ts', 'pydate'][idx % 5],
          'resp': ['float', 'float', 'float', 'int'][idx % 4]}
   geo_ids = ids_int if fmt['geo'] == 'int' else ['geo_%03d' % x for x in ids_int]
   return {'idx': idx, 'seed': seed, 'kind': kind, 'ngeo': ngeo, 'nd': nd, 'groups': groups,
           'periods': periods, 'vals': vals.tolist(), 'planted_noisy': planted_noisy,
-          'planted_out': planted_out, 'geo_ids': geo_ids, 'fmt': fmt,
+          'planted_out': planted_out, 'geo_ids': geo_ids, 'fmt': fmt, 'missing': missing,
           'base_date': ['2020-02-20', '2019-12-15', '2021-06-28'][idx % 3]}
 
 
@@ -163,7 +174,8 @@ def build(inst, pres):
     dates = [s.date() for s in stamps]
   else:
     dates = stamps
-  cells = [(g, d) for g in range(ngeo) for d in range(nd)]
+  absent = {(g, d) for g, d in inst.get('missing', [])}
+  cells = [(g, d) for g in range(ngeo) for d in range(nd) if (g, d) not in absent]
   if pres['shuffle'] is not None:
     rs = np.random.RandomState((inst['seed'] * 31 + inst['idx'] * 17 + pres['shuffle']) % (2 ** 32))
     cells = [cells[int(j)] for j in rs.permutation(len(cells))]
@@ -211,7 +223,9 @@ def _int(x):
     f = float(x)
   except (TypeError, ValueError):
     return BAD
-  if f != f or f in (float('inf'), float('-inf')) or f != int(f) or abs(f) > 10 ** 9:
+  if f != f:
+    return NA
+  if f in (float('inf'), float('-inf')) or f != int(f) or abs(f) > 10 ** 9:
     return BAD
   return int(f)
 
@@ -568,6 +582,7 @@ def run(res):
   # ---- coverage classes of the recorded executions (reference presentation of each instance)
   cls = {'noisy_only': 0, 'outliers_only': 0, 'both': 0, 'neither': 0, 'report_none': 0}
   pres_count, rows_removed_geo, rows_removed_date, multi_out, unassigned_in = {}, 0, 0, 0, 0
+  unbalanced, group_absent = 0, 0
   for o in outcomes:
     pres_count[o['pres'] + ':' + o['status']] = pres_count.get(o['pres'] + ':' + o['status'], 0) + 1
     if o['status'] != 'ok' or o['pres'] != 'base':
@@ -578,13 +593,17 @@ def run(res):
     cls['report_none'] += 1 if t['none'] else 0
     multi_out += 1 if len(t['outliers']) > 1 else 0
     unassigned_in += 1 if any(r['grp'] == 'u' for r in t['data']) else 0
+    unbalanced += 1 if len(t['rows']) < o['ngeo'] * o['nd'] else 0
+    group_absent += 1 if any(a['x'] == NA or a['y'] == NA for a in t['analysis']) else 0
     rows_removed_geo += sum(1 for r in t['rows'] if r['geo'] in set(t['noisy']))
     rows_removed_date += sum(1 for r in t['rows'] if r['date'] in set(t['outliers']))
   res.extra.update({'instances': n_inst, 'fits': len(outcomes), 'report_classes_reference_runs': cls,
                     'presentations': pres_count, 'verdicts': n,
                     'rows_of_reported_geos': rows_removed_geo, 'rows_of_reported_dates': rows_removed_date,
                     'reference_runs_with_several_outlier_dates': multi_out,
-                    'reference_runs_with_unassigned_rows_kept': unassigned_in})
+                    'reference_runs_with_unassigned_rows_kept': unassigned_in,
+                    'reference_runs_on_unbalanced_panels': unbalanced,
+                    'reference_runs_with_a_group_absent_on_a_date': group_absent})
   judged_ok = n['accepted'] + n['rejected']
   if not res.violations:
     empty = [k for k, v in cls.items() if v == 0]
@@ -593,6 +612,8 @@ def run(res):
     for p in ('base:ok', 'shuffled:ok', 'custom:ok'):
       if not pres_count.get(p):
         raise tlc.MachineryError('vacuous run: no judged execution of presentation %s (%r)' % (p, pres_count))
+    if unbalanced == 0 or group_absent == 0:
+      raise tlc.MachineryError('vacuous run: no unbalanced panel / no date without a group (%d, %d)' % (unbalanced, group_absent))
     if rows_removed_geo == 0 or rows_removed_date == 0 or unassigned_in == 0:
       raise tlc.MachineryError('vacuous run: nothing removed / no unassigned rows (%d, %d, %d)'
                                % (rows_removed_geo, rows_removed_date, unassigned_in))
